@@ -84,7 +84,7 @@ class Check:
         return key
 
     # ------------------------------------------------------------------ exploring
-    def explore(self, fkey, run, assumptions=(), max_paths=400, only=None):
+    def explore(self, fkey, run, assumptions=(), max_paths=400, only=None, expand=False):
         """all paths of `run`; repo functions executed are recorded as inlined callees"""
         seen = set()
         repo_prefix = os.path.join(REPO, "coxeter")
@@ -97,7 +97,7 @@ class Check:
         old = sys.getprofile()
         sys.setprofile(prof)
         try:
-            res = paths.explore(run, assumptions=assumptions, max_paths=max_paths, catch=EXC_OF_CODE, only=only)
+            res = paths.explore(run, assumptions=assumptions, max_paths=max_paths, catch=EXC_OF_CODE, only=only, expand=expand)
         finally:
             sys.setprofile(old)
         self.inlined |= seen
@@ -333,10 +333,20 @@ class Check:
             if pid == 0:
                 os.close(r)
                 code = 0
+                # time budget of one task: changed code can make the symbolic execution blow up (e.g. rotations that
+                # compose along a loop); the task then ends as an undecided section instead of hanging the check
+                import signal
+                budget = int(os.environ.get("PYVC_TASK_BUDGET", "0") or 0) or (420 if self.tier == "quick" else 1500)
+
+                def _expired(signum, frame):
+                    raise paths.OutOfReach(f"time budget of {budget} s for one task exhausted")
+                signal.signal(signal.SIGALRM, _expired)
+                signal.alarm(budget)
                 try:
                     base = {k: len(getattr(self, k)) for k in ("obls", "violations", "known_hits", "errors", "canaries",
                                                                "bounded", "notes", "out_of_reach", "assumed", "trusted")}
                     self.section(f"task[{label}]", next(iter(self.functions), "-"), lambda: fn(self))
+                    signal.alarm(0)
                     for ob in self.obls:
                         ob.replay = None
                     out = {k: getattr(self, k)[n:] for k, n in base.items()}
